@@ -39,7 +39,7 @@ def pname(i):
     if sch == 4 and i <= 2:
         # the names of the program's labels (defined behind the macros)
         return ["la", "lb"][i - 1]
-    return "p" + PNAMES[i - 1]
+    return "p" + PNAMES[i - 1] if i <= len(PNAMES) else "pw%d" % i
 
 
 def ritem(it, params=False):
@@ -196,7 +196,7 @@ def run(tier, seed):
     rnd = random.Random(seed)
     vdir = C.ensure_build("rel")
     rd = chk.rundir
-    g1 = C.tlc("GenMacro", "gen_Macro_bfs.cfg", rd, workers=8, heap="4g", prefixes=("CASE ", "WRAP "))
+    g1 = C.tlc("GenMacro", "gen_Macro_bfs.cfg", rd, workers=8, heap="4g", prefixes=("CASE ", "WRAP ", "WIDE "))
     g2 = C.tlc("GenMacro", "gen_Macro_sim.cfg", rd, workers=4, heap="4g", simulate=(500 if tier == "quick" else 8000), depth=16, seed=seed)
     chk.add_tlc(g1)
     chk.add_tlc(g2)
@@ -210,12 +210,17 @@ def run(tier, seed):
     if len(progs) < 2000:
         raise C.InfraError("only %d programs" % len(progs))
     carriers = [("msp430", 1, False), ("68000", 1, True), ("avr8", 2, False)]
+    wides = C.parse_payload(g1.lines, "WIDE ")
+    if not wides or len(wides[0]) < 150:
+        raise C.InfraError("no wide-macro programs")
+    nplain = len(progs)
+    progs += sorted(wides[0], key=lambda w: json.dumps(w, sort_keys=True))
     cases, meta = [], {}
     for i, p in enumerate(progs):
         cpu, bpa, big = carriers[i % 3] if len(p) > 13 else carriers[0]
         names = [s["n"] for s in p if s["k"] == "label"]
         names = sorted(set(names))
-        src = A.layout(render(p, cpu, i), i)
+        src = A.layout(render(p, cpu, i), i) if i < nplain else render(p, cpu, 0)
         cid = "m%d" % i
         meta[cid] = (i, cpu, bpa, big, names, src)
         cases.append((cid, "syms=%s imgmax=20000" % ";".join(names), src))
